@@ -294,6 +294,7 @@ def run_c11(ck):
     bad = hygiene()
     ck.oblige("proof hygiene: no Axiom/Parameter/Admitted/admit/guard switches in Model/System.v, Props/SystemProps.v", not bad, "; ".join(bad))
     errs = vlib.run_gen("mappers")
+    vlib.fallback_obligations(ck, ["GenMap_lorom"])
     harness, herr = vlib.build_harness()
     if harness is None:
         ck.oblige("build Go harness against the tree under test", False, herr)
